@@ -121,9 +121,10 @@ def obligations(tier):
                   claim='a rule that is none of the defined rule URIs never matches and never raises'))
     sym_cases = [(p, 2 - (p == 2), p == 2) for p in range(4)]       # partner 'a' (no scheme, no authority) lets the symbolic text
     if not quick:                                                   # reach the segment comparison: one character less there
-        sym_cases += [(p, 3 - (p == 2), True) for p in range(4)]
+        # (partner 'a' with 2 symbolic characters does not finish within 900 s since match_scope compares decoded octets: stays at 1)
+        sym_cases += [(p, 3, True) for p in (0, 1, 3)]
     for p, ml, asc in sym_cases:
-        obs.append(Ob(f'C14.scope.laws.sym.p{p}' + ('.ascii' if asc else ''), 'harness.C14', 'scope_laws_sym',
+        obs.append(Ob(f'C14.scope.laws.sym.p{p}' + ('.ascii' if asc else '') + (f'.len{ml}' if ml == 3 else ''), 'harness.C14', 'scope_laws_sym',
                       bind={'partner': p, 'maxlen': ml, 'ascii_only': asc}, timeout=t if quick else 900, functions=F_SCOPE,
                       bounds=f'one unconstrained symbolic {"ASCII" if asc else "unicode"} string s, <= {ml} characters; partner scope '
                              f'{("ab://h/a", "ab:/a/b", "a", "//h?q")[p]!r}',
